@@ -476,7 +476,7 @@ fn verif_pure_bundle()
                     bundle::ParseError::Contradiction(a, b) =>
                     {
                         let name = |l: &str| -> String { l.chars().skip(level(l)).collect() };
-                        if a >= body.len() || b >= body.len() || a == b || name(body[a]) != name(body[b]) || level(body[a]) != level(body[b]) { t.wrong(&format!("{:?}", lines), &format!("contradiction reported between lines {} and {}, which are not two entries of one name at one level", a, b)); }
+                        if a >= body.len() || b >= body.len() || a >= b || name(body[a]) != name(body[b]) || level(body[a]) != level(body[b]) { t.wrong(&format!("{:?}", lines), &format!("contradiction reported between lines {} and {}, which are not an earlier and a later entry of one name at one level", a, b)); }
                     },
                     bundle::ParseError::Empty => { if !body.is_empty() { t.wrong(&format!("{:?}", lines), "reported as empty, but there are lines"); } },
                 }
@@ -487,6 +487,38 @@ fn verif_pure_bundle()
                 (None, None) => {},
                 (Some(w), None) => t.wrong(&format!("{:?}", lines), &format!("well-formed bundle rejected (expected {:?})", w)),
                 (None, Some(g)) => t.wrong(&format!("{:?}", lines), &format!("malformed bundle accepted as {:?}", g)),
+            }
+        }
+    }
+    /*  WIDE levels: many entries on one level with exactly one contradiction (one name once as a directory, once as a plain entry):
+        the error names exactly these two lines, the earlier one first */
+    {
+        let mut x : u64 = 0x9E3779B97F4A7C15;
+        let mut next = move |n: u64| -> u64 { x ^= x << 13; x ^= x >> 7; x ^= x << 17; x % n };
+        for width in [12usize, 33, 40, 64, 90].iter()
+        {
+            for _ in 0..40
+            {
+                let i = next(*width as u64) as usize; let mut j = next(*width as u64) as usize; if j == i { j = (i + 1) % *width; }
+                let (dir_at, leaf_at) = (i, j);
+                let mut owned : Vec<String> = vec![]; let mut line_of = vec![0usize; *width];
+                /*  names in a scrambled order, so that sorting has something to do */
+                for k in 0..*width
+                {
+                    line_of[k] = owned.len();
+                    if k == dir_at { owned.push("twice".to_string()); owned.push("\tinside.c".to_string()); }
+                    else if k == leaf_at { owned.push("twice".to_string()); }
+                    else { owned.push(format!("e{:03}", (k * 37) % 101)); }
+                }
+                let lines : Vec<&str> = owned.iter().map(|s| s.as_str()).collect();
+                let (a, b) = if line_of[dir_at] < line_of[leaf_at] { (line_of[dir_at], line_of[leaf_at]) } else { (line_of[leaf_at], line_of[dir_at]) };
+                t.case();
+                match guard(|| PathBundle::parse_lines(lines.clone()))
+                {
+                    Some(Err(bundle::ParseError::Contradiction(x, y))) => if (x, y) != (a, b) { t.wrong(&format!("{} entries on one level, 'twice' at lines {} and {}", width, a, b), &format!("contradiction reported between lines {} and {}", x, y)); },
+                    Some(other) => t.wrong(&format!("{} entries on one level, 'twice' at lines {} and {}", width, a, b), &format!("expected a contradiction, got {}", match other { Ok(_) => "Ok".to_string(), Err(e) => format!("{:?}", e) })),
+                    None => t.wrong(&format!("{} entries on one level", width), "bundle parsing PANICKED"),
+                }
             }
         }
     }
